@@ -6,23 +6,22 @@ Local Open Scope Z_scope.
 (* C01, plain and CRC images (XIP or load-to-RAM), for EVERY mixin list accepted by wf_plain_crc (any order; App, IVT or
    IvtZeroTotalLength, TrustZone or TrustZoneMandatory, load address, image version, sub-type, HW key, relocation-table
    mixin, FwVersion; export mixins App / AppTrustZone with or without CrcSign), every payload of >= 0x38 bytes (multiple
-   of 4, as the app setter guarantees), every load address / image version / sub-type / TrustZone setting (disabled,
-   default, custom preset of the family's size) / HW-key flag:
-   if the builder accepts x and the image does not fall into the relocation-table finding (no table given, and the
-   exported application does not end in a table marker when the class has the relocation mixin), then parsing the exported
-   image with the same class gives back the application (IVT words zeroed) and every setting the class carries; and when
-   the settings the class does not carry are at their defaults, re-exporting the parsed object reproduces the image. *)
+   of 4, as the app setter guarantees; ANY content, including one that ends in a relocation-table marker), every load
+   address / image version / sub-type / TrustZone setting (disabled, default, custom preset of the family's size) /
+   HW-key flag, WITH or WITHOUT a relocation table of any number of entries:
+   if the builder accepts x, parsing the exported image with the same class gives back the application (IVT words zeroed),
+   the relocation table and every setting the class carries; and when the settings the class does not carry are at their
+   defaults, re-exporting the parsed object reproduces the image. *)
 Theorem mbi_roundtrip_plain_crc :
   forall (k : crypto) (c : mbi_class) (x : mbi) (tzsize sigsz : nat) (dek : option (list N)) (im : list N),
     wf_plain_crc c = true ->
     (56 <= length (m_app x))%nat -> (length (m_app x) mod 4 = 0)%nat ->
     0 <= m_subtype x < 4 -> 0 <= m_imgver x < 65536 ->
-    m_table x = None ->
+    (forall es, m_table x = Some es -> has_attr c AAppTable = true /\ entries_ok es) ->
     (forall d, m_tz x = TzCustom d -> length d = tzsize /\ (0 < tzsize)%nat) ->
     export_mbi k c x = Ok im ->
-    (has c MixinRelocTable = true -> table_parse (firstn (length (m_app x)) im) = Ok None) ->
-    parse_mbi k c tzsize sigsz dek im = Ok (parsed_plain c x) /\
+    parse_mbi k c tzsize sigsz dek im = Ok (parsed c x dek) /\
     (canonical_plain c x ->
-       parsed_plain c x = set_app x (clean_ivt (m_app x)) /\ export_mbi k c (parsed_plain c x) = Ok im).
+       parsed c x dek = set_app x (clean_ivt (m_app x)) /\ export_mbi k c (parsed c x dek) = Ok im).
 Proof. exact roundtrip_plain_crc_full. Qed.
 Print Assumptions mbi_roundtrip_plain_crc.
